@@ -233,20 +233,22 @@ def from_str_radix(ex, bytes_, radix, ty):
         b = b[1:]
     wide = bits + 8 + 4 * len(b)
     acc = bv(0, wide)
+    shift = {2: 1, 4: 2, 8: 3, 16: 4, 32: 5}.get(radix)
     for x in b:
         okd, dv = digit_value(x, radix)
         if not ex.decide(okd):
             return err(Opaque('ParseIntError::InvalidDigit'))
-        acc = acc * radix + z3.ZeroExt(wide - 8, dv)
+        acc = ((acc << shift) | z3.ZeroExt(wide - 8, dv)) if shift else (acc * radix + z3.ZeroExt(wide - 8, dv))
     acc = z3.simplify(acc)
+    biggest = radix ** len(b) - 1          # largest value k digits can denote: no solver needed when it cannot overflow
     if neg:
         lim = 1 << (bits - 1)
-        if ex.decide(z3.UGT(acc, bv(lim, wide))):
+        if biggest > lim and ex.decide(z3.UGT(acc, bv(lim, wide))):
             return err(Opaque('ParseIntError::NegOverflow'))
         val = z3.simplify(-z3.Extract(bits - 1, 0, acc))
     else:
         lim = (1 << (bits - 1)) - 1 if signed else (1 << bits) - 1
-        if ex.decide(z3.UGT(acc, bv(lim, wide))):
+        if biggest > lim and ex.decide(z3.UGT(acc, bv(lim, wide))):
             return err(Opaque('ParseIntError::PosOverflow'))
         val = z3.simplify(z3.Extract(bits - 1, 0, acc))
     return ok(I(val, signed, ty))
